@@ -194,6 +194,10 @@ func (g *generator) paramsComp(args *mgmt.ControlArgs) (enc.Component, string) {
 		// carried in a component of another type
 		return enc.NewBytesComponent(enc.TypeKeywordNameComponent, b), "params-in-keyword-comp"
 	}
+	if g.chance(0.5) {
+		// encoded by the independent encoder with the protocol's TLV numbers (what nfdc or another library sends)
+		return enc.NewBytesComponent(enc.TypeGenericNameComponent, specEncodeParams(args)), "spec-encoded"
+	}
 	return enc.NewBytesComponent(enc.TypeGenericNameComponent, b), ""
 }
 
@@ -237,7 +241,7 @@ func (g *generator) strategy() (*mgmt.Strategy, string) {
 	}
 }
 
-var mtuPool = []uint64{0, 1, 4, 21, 22, 23, 33, 34, 35, 45, 46, 47, 53, 54, 55, 63, 64, 65, 100, 576, 1500, 8799, 8800, 8801, 1 << 31, 1 << 63, 1<<64 - 1}
+var mtuPool = []uint64{0, 1, 4, 21, 22, 23, 33, 34, 35, 45, 46, 47, 53, 54, 55, 63, 64, 65, 100, 576, 1500, 8799, 8800, 8801, 1 << 31, 1 << 63, 1<<64 - 1, 1<<63 + 1, 1<<63 - 1, 1 << 63, 1<<64 - 1}
 
 // URIs for faces/create. The first group is refused by the URI checks; the second group are valid unicast URIs: they
 // are refused only if they conflict with a face of the world or come with a refused parameter (see runCase: a
@@ -392,6 +396,9 @@ func (g *generator) args(module, verb string, nfaces int) (*mgmt.ControlArgs, st
 		if a.Name != nil {
 			g.strats = append(g.strats, a.Name)
 		}
+	}
+	if module == "cs" && g.chance(0.25) {
+		a.Count = utils.IdPtr(uint64(2 + g.r.Intn(9))) // a field cs/config does not use
 	}
 	// occasionally: every field, or a field that the verb does not use
 	if g.chance(0.04) {
